@@ -10,7 +10,7 @@ SYN_VALUES = {'INTEGER': '1', 'FLOAT': '1.5', 'ID': 'x', 'QUOTE_STRING': "'s'", 
               'VARIABLE': '@v', 'SYSTEM_VARIABLE': '@@v', 'PARAMETER': '?'}
 
 KINDS = ['valid', 'delete', 'dup', 'replace', 'insert', 'prefix', 'suffix', 'infix', 'concat', 'concat_semi',
-         'truncate', 'soup', 'swap']
+         'truncate', 'soup', 'swap', 'ml_prefix', 'ml_concat']
 
 
 def side(dialect):
@@ -100,6 +100,21 @@ def gen_cases(dialect, rng, n, kinds=None, weights=None):
             desc['base2'] = src2
             mid = [synth('SEMICOLON')] if (kind == 'concat_semi' and 'SEMICOLON' in terms) else []
             toks = toks + mid + [clone_token(t) for t in base2]
+        elif kind in ('ml_prefix', 'ml_concat'):
+            # several lines: garbage (or a broken statement) on the first line, then further lines that hold one
+            # more token and a complete statement
+            src2, base2 = rng.choice(bases)
+            first = [synth(rterm()) for _ in range(rng.randint(1, 3))] if kind == 'ml_prefix' else toks[:max(1, len(toks) - rng.randint(1, 3))] + [synth(rterm())]
+            second = [synth(rterm())] + [clone_token(t) for t in base2]
+            if rng.random() < 0.5:
+                second = [synth(rterm())] + second
+            for t in first:
+                t.lineno = 1
+            for t in second:
+                t.lineno = 2 if rng.random() < 0.7 else 3
+            second.sort(key=lambda t: t.lineno)
+            toks = first + second
+            desc['base2'] = src2
         elif kind == 'truncate':
             j = rng.randrange(len(toks))
             desc['at'] = j
